@@ -7,7 +7,8 @@ import numpy as np
 import torch
 from hypothesis import strategies as st
 
-from props.c11 import affine_field, build_generator, cube_axis, cube_coords
+from props.c11 import (affine_field, build_generator, cube_axis, cube_coords, forms, invoke, pollute_coords, pollutions,
+                       spoil_result)
 from vlib import gen
 from vlib.case import hash_noise, smooth_field, tdtype
 from vlib.core import EPS32, Facet, Violation, check_close, eps_of
@@ -26,6 +27,13 @@ MANIFEST = {
             "convention) and explicit, stated error bounds for the approximate clauses (BCH truncation error growth; "
             "logv(expv(v, scale, steps, inverse), ...) = +-scale v with a bound that is a stated function of the step "
             "counts and the iteration count). "
+            "Every call of compose_flows / expv / logv / lie_bracket / compose_svfs in the exact facets, convention_independence "
+            "and log_exp is made in a generated argument form (keywords, positional in the documented order, documented "
+            "defaults omitted) and the documented positional order is compared with the live signature. Degenerate option "
+            "values have closed forms on invariant affine fields: expv(steps=0) = +-scale v, and logv(exp_steps=0, num_iters "
+            "0..5, bch_terms 0..5) = the documented fixed-point iteration evaluated with matrices. Purity: calls are preceded "
+            "(generated) by in-place modification of Grid.coords() tensors of a grid of the same shape, of gaussian1d() "
+            "kernels and of results of earlier identical calls, which must not change the result; arguments stay unmodified. "
             "Exploration: no absence proof; the exact facets pin every grid point to K*eps, discrete errors "
             "(operand order, a coefficient, a sign, a dropped align_corners) are 3-10 orders above the bounds.",
     "note": "Trusted: numpy/scipy (matmul, expm/logm in the self-test), the reference construction of normalised sample "
@@ -34,8 +42,9 @@ MANIFEST = {
             "facets), <= 40 (2-D) / 20 (3-D) for the smooth-field facets. The smooth-field bounds (bch_smooth growth "
             "slack, discretisation floor of the log_exp bound) are calibrated on the fixed tree with a safety factor >= 3, "
             "not derived; the step-count and iteration terms of the log_exp bound are first-order derivations with an "
-            "allowance factor. Not observable within the stated bounds (hence not claimed): whether logv forwards exp_steps "
-            "/ sigma to its helpers and an off-by-one of num_iters (the converged result changes by less than the bound).",
+            "allowance factor. Not observable (hence not claimed): whether logv forwards sigma to compose_svfs when brackets "
+            "are smoothed (exp_steps forwarding and the exact iteration count are pinned by degenerate_closed_forms with "
+            "exp_steps=0 only).",
     "technique": "property-based testing (Hypothesis) with closed-form reference models and metamorphic relations",
 }
 ASSUMPTIONS = [
@@ -80,6 +89,18 @@ ASSUMPTIONS = [
     "per-item (N, D) spacing tensor, as documented for flow_derivatives) within the rounding bound of one bracket",
     "logv / compose_svfs are called with `spacing` consistent with the convention (2/(n-1) resp. 2/n): with "
     "spacing=None deepali always uses 2/(n-1), which is documented behaviour of flow_derivatives",
+    "argument forms: documented positional order and defaults are the literals SIGNATURES / DEFAULTS of props/c11.py "
+    "(order of the 'Args:' sections = signatures of the pinned tree; for lie_bracket the signature order (v, u), which is "
+    "the order of the formula [v, u]); a live signature that no longer starts with the documented, positionally "
+    "passable parameters is reported as signature_changed:<function>",
+    "degenerate_closed_forms: logv is the documented fixed-point iteration (property anchor: v <- BCH(exp(-v) o flow, v), "
+    "start value v_0 = flow, so num_iters=0 returns flow); with exp_steps=0 the inner exponential is the documented "
+    "zero-step value -v, compose_flows(flow, -v) samples the affine field -v at x + flow(x) inside the sample hull "
+    "(exact), and compose_svfs is the documented series with exact finite differences (sigma=None whenever a bracket is "
+    "evaluated).  Rounding bound: error bookkeeping of bch_exact_affine chained over the iterations, allowance factor 8",
+    "tensors returned by Grid.coords(), kernels.gaussian1d() and by the functions of the property belong to the caller "
+    "and may be modified in place; documented aliases: expv(steps=0) and logv(num_iters=0) may return their argument "
+    "(fresh copies are passed where such a result is modified)",
 ]
 
 
@@ -237,7 +258,8 @@ def compose_cases(draw):
         "D": D, "shape": shape, "ac": draw(st.booleans()), "dtype": draw(gen.dtypes()), "N": draw(st.integers(1, 3)),
         "u": gen_params(draw, D), "v": gen_params(draw, D),
         "v_free": draw(st.booleans()),  # second field: arbitrary affine (no invariance needed for exactness)
-        "ac_kw": draw(st.booleans()),  # pass align_corners by keyword / positionally
+        "form": draw(forms()),  # align_corners by keyword / positionally / omitted when it is the documented default
+        "pollute": draw(pollutions()),
         "key": draw(st.integers(0, 10 ** 6)),
     }
 
@@ -264,9 +286,12 @@ def run_compose(case):
     v = torch.tensor(np.stack([affine_field(Hv, x) for _, Hv in pairs]), dtype=dt)
     u0, v0 = u.clone(), v.clone()
 
-    def compose(a, b):
-        return U.compose_flows(a, b, align_corners=ac) if case["ac_kw"] else U.compose_flows(a, b, ac)
+    form = case.get("form") or ("kw" if case.get("ac_kw", True) else "pos")
 
+    def compose(a, b):
+        return invoke("compose_flows", U.compose_flows, form, [a, b], {"align_corners": ac})
+
+    pollute_coords(shape, ac, dt, case.get("pollute"))
     w = compose(u, v)
     if w.shape != u.shape or w.dtype != u.dtype:
         raise Violation("compose_shape_dtype", f"result {tuple(w.shape)} {w.dtype} for input {tuple(u.shape)} {u.dtype}")
@@ -289,11 +314,19 @@ def run_compose(case):
     bid = 16 * eps * (max(shape) * 2.0 + 1.0)
     worst = max(worst, check_close(compose(z, f), f, bid, "zero_left_identity", f"compose_flows(0, f, {ac}) != f"))
     worst = max(worst, check_close(compose(f, z), f, 4 * eps, "zero_right_identity", f"compose_flows(f, 0, {ac}) != f"))
+    # the result belongs to the caller: modifying it in place must change neither the arguments nor a later result
+    snap = w.clone()
+    spoil_result(w)
+    if not (torch.equal(u, u0) and torch.equal(v, v0)):
+        raise Violation("compose_result_shares_memory", "modifying the result of compose_flows in place changed an argument")
+    check_close(compose(u, v), snap, 2 * eps * max(1.0, float(snap.abs().max())), "compose_depends_on_earlier_result",
+                "compose_flows: same arguments, different result after the first result was modified in place")
     offd = any(abs(Hu0[i, j]) > 0.01 for i in range(D) for j in range(D) if i != j)
     noncomm = float(np.abs(Hv0[:, :D] @ Hu0[:, :D] - Hu0[:, :D] @ Hv0[:, :D]).max()) > 1e-3
     return {"ratio": worst, "nontrivial": offd and noncomm and len(set(shape)) > 1,
             "labels": [f"D={D}", f"ac={ac}", case["dtype"], f"N={N}", "v_free" if case["v_free"] else "v_invariant",
-                       "order_sensitive" if noncomm else "order_insensitive"]}
+                       "order_sensitive" if noncomm else "order_insensitive", f"form={form}",
+                       f"pollute={case.get('pollute')}"]}
 
 
 # ---------------------------------------------------------------------------------------
@@ -312,6 +345,7 @@ def convention_cases(draw):
         "waves": draw(st.lists(st.integers(1, 2), min_size=D, max_size=D)),
         "noise": draw(st.sampled_from([0.0, 0.0, 0.05, 0.2])) if op != "compose" else draw(gen.qfloat(0.0, 2.0, 0.1)),
         "key": draw(st.integers(0, 10 ** 6)),
+        "form": draw(forms()), "pollute": draw(pollutions()),
     }
     if op == "expv":
         case["steps"] = draw(st.one_of(st.none(), st.integers(0, 7)))
@@ -422,17 +456,19 @@ def run_convention(case):
     # is v = field / scale, so amplitude and slope of what is exponentiated do not depend on the generated scale
     sc = signed_scale(case) if op == "expv" else 1.0
     out = {}
+    form = case.get("form", "kw")
     for ac in (True, False):
         f = torch.tensor(to_norm(fv / sc, shape, ac), dtype=dt)
+        pollute_coords(shape, ac, dt, case.get("pollute"))
         if op == "compose":
             g = torch.tensor(to_norm(gv, shape, ac), dtype=dt)
-            r = U.compose_flows(f, g, align_corners=ac)
+            r = invoke("compose_flows", U.compose_flows, form, [f, g], {"align_corners": ac})
         elif op == "expv":
-            r = U.expv(f, align_corners=ac, **expv_kwargs(case))
+            r = invoke("expv", U.expv, form, [f], dict(expv_kwargs(case), align_corners=ac))
         else:
             sp = [float(s) for s in unit_of(shape, ac)]
-            e = U.expv(f, align_corners=ac, **expv_kwargs(case))
-            r = U.logv(e, spacing=sp, align_corners=ac, **logv_kwargs(case))
+            e = invoke("expv", U.expv, form, [f], dict(expv_kwargs(case), align_corners=ac))
+            r = invoke("logv", U.logv, form, [e], dict(logv_kwargs(case), spacing=sp, align_corners=ac))
         if r.shape != f.shape:
             raise Violation("convention_shape", f"{op}: result shape {tuple(r.shape)} != {tuple(f.shape)}")
         out[ac] = to_vox(r, shape, ac)
@@ -451,7 +487,8 @@ def run_convention(case):
     kind = {"compose": "convention_dependent_compose", "expv": "convention_dependent_expv", "logv": "convention_dependent_logv"}[op]
     ratio = check_close(out[True], out[False], bound, kind,
                         f"voxel-space {op} differs between align_corners=True and False (a={case['amp']}, shape={shape})")
-    labels = [f"op={op}", f"D={D}", case["dtype"], f"N={case['N']}", "noise" if case["noise"] else "smooth"]
+    labels = [f"op={op}", f"D={D}", case["dtype"], f"N={case['N']}", "noise" if case["noise"] else "smooth", f"form={form}",
+              f"pollute={case.get('pollute')}"]
     if op == "expv":
         labels += [f"steps={case.get('steps')}", "scale=omitted" if case.get("scale") is None else
                    ("scale<0" if case["scale"] < 0 else "scale>0"), f"inverse={bool(case.get('inverse'))}"]
@@ -598,6 +635,7 @@ def bracket_cases(draw):
         "key": draw(st.integers(0, 10 ** 6)),
         "u": free_params(draw, D), "v": free_params(draw, D),
         "content": draw(st.sampled_from(["noise", "smooth+noise", "affine"])),
+        "form": draw(forms()), "pollute": draw(st.booleans()),
     })
     return case
 
@@ -636,8 +674,9 @@ def run_bracket(case):
     f1, f2, g = [torch.tensor(a, dtype=dt) for a in generic_fields(case, xs)]
     al, be = case["alpha"], case["beta"]
 
+    form = case.get("form", "kw")
     def lb(a, b):
-        r = U.lie_bracket(a, b, **kw)
+        r = invoke("lie_bracket", U.lie_bracket, form, [a, b], kw)
         if r.shape != a.shape:
             raise Violation("bracket_shape", f"lie_bracket result {tuple(r.shape)} for input {tuple(a.shape)}")
         return r
@@ -647,8 +686,26 @@ def run_bracket(case):
     # each bracket component: 2 D products J*u of magnitude <= jmax R, J itself carries eps relative rounding
     rb = 64 * eps * D * jmax * R
     worst = 0.0
+    f1_0, g_0 = f1.clone(), g.clone()
+    if case.get("pollute"):
+        # result before other owners of shared-looking tensors modify them in place: (1) the first result itself,
+        # (2) a kernel obtained from the public helper that the Gaussian pre-smoothing uses
+        before = lb(f1, g)
+        snap = before.clone()
+        spoil_result(before)
+        if case["sigma"]:
+            from deepali.core import kernels as K
+
+            for t in (torch.float, dt):
+                for dev in (None, torch.device("cpu")):
+                    K.gaussian1d(case["sigma"], dtype=t, device=dev).mul_(-2.0).add_(0.5)
+        worst = max(worst, check_close(lb(f1, g), snap, rb / 16, "bracket_depends_on_shared_state",
+                                       "lie_bracket(v, u): same arguments, different result after the first result and a "
+                                       "gaussian1d() kernel of another caller were modified in place"))
     b12 = lb(f1, g)
     b21 = lb(g, f1)
+    if not (torch.equal(f1, f1_0) and torch.equal(g, g_0)):
+        raise Violation("bracket_input_modified", "lie_bracket modified an argument")
     worst = max(worst, check_close(b12, -b21.double(), rb, "bracket_antisymmetry", "[v,u] != -[u,v]"))
     worst = max(worst, check_close(lb(f1, f1), torch.zeros_like(f1), rb, "bracket_self_nonzero", "[v,v] != 0"))
     c = abs(al) + abs(be) + 1.0
@@ -664,7 +721,7 @@ def run_bracket(case):
             kwb = dict(kw)
             if isinstance(kw.get("spacing"), torch.Tensor):
                 kwb["spacing"] = spacing_arg(case, items=[b])
-            single = U.lie_bracket(f1[b:b + 1], g[b:b + 1], **kwb)
+            single = invoke("lie_bracket", U.lie_bracket, form, [f1[b:b + 1], g[b:b + 1]], kwb)
             worst = max(worst, check_close(b12[b:b + 1], single.double(), rb, "bracket_batch_item",
                                            f"item {b} of lie_bracket(v, u) on a batch of {N} != lie_bracket(v[{b}], u[{b}])"))
     # analytic value on affine fields (exact for forward/central/backward differences, no smoothing)
@@ -679,14 +736,14 @@ def run_bracket(case):
             us.append(Fu.vals)
             vs.append(Fv.vals)
             models.append(bracket_model(Fv, Fu, xs[b], eps, smins[b]))
-        got = U.lie_bracket(torch.tensor(np.stack(vs), dtype=dt), torch.tensor(np.stack(us), dtype=dt), **kw)
+        got = invoke("lie_bracket", U.lie_bracket, form, [torch.tensor(np.stack(vs), dtype=dt), torch.tensor(np.stack(us), dtype=dt)], kw)
         for b, m in enumerate(models):
             nz = nz or float(np.abs(m.vals).max()) > 1e-2
             worst = max(worst, check_close(got[b], m.vals, 8 * m.err + 1e-300, "bracket_analytic",
                                            "lie_bracket(v, u) != Jac(v) u - Jac(u) v = (BA-AB)x + (Ba-Ab) on affine fields"))
     labels = [f"D={D}", case["dtype"], f"N={N}", f"mode={case['mode']}", f"sigma={case['sigma']}", case["content"],
               "spacing=default" if case["use_default_spacing"] else f"spacing={case['spacing_kind']}/{case['spacing_form']}",
-              "analytic" if analytic else "algebra_only"]
+              "analytic" if analytic else "algebra_only", f"form={form}"]
     return {"ratio": worst, "nontrivial": (nz or not analytic) and len(set(shape)) > 1, "labels": labels}
 
 
@@ -707,6 +764,7 @@ def bch_affine_cases(draw):
         "u": free_params(draw, D), "v": free_params(draw, D),
         "c": draw(gen.qfloat(-2.0, 2.0, 0.05)),
         "key": draw(st.integers(0, 10 ** 6)),
+        "form": draw(forms()),
     })
     return case
 
@@ -744,6 +802,11 @@ def run_bch_affine(case):
     xs, smins = item_lattices(case)
     smin = min(smins)
     kw = {"mode": case["mode"], "spacing": spacing_arg(case)}
+    form = case.get("form", "kw")
+
+    def svfs(a, b, **more):
+        return invoke("compose_svfs", U.compose_svfs, form, [a, b], dict(kw, **more))
+
     commuting = case["pair"] != "general"
     worst = 0.0
     nz = False
@@ -761,7 +824,7 @@ def run_bch_affine(case):
         amp = 2 * D * (j + R / smin)
         errs = [0.0, e1, e1 * amp, e1 * amp, e1 * amp * amp, e1 * amp * amp]
         for k in range(6):
-            w = U.compose_svfs(u, v, bch_terms=k, **kw)
+            w = svfs(u, v, bch_terms=k)
             bound = 4 * eps * R + sum(errs[: k + 1])
             worst = max(worst, check_close(w, u.double() + v.double(), bound, "bch_commuting_not_sum",
                                            f"compose_svfs(f, c f, bch_terms={k}) != f + c f"))
@@ -777,8 +840,14 @@ def run_bch_affine(case):
             models.append(bch_model(Fu, Fv, xs[b], eps, smins[b]))
         u = torch.tensor(np.stack(us), dtype=dt)
         v = torch.tensor(np.stack(vs), dtype=dt)
+        u_0, v_0 = u.clone(), v.clone()
         for k in range(6):
-            w = U.compose_svfs(u, v, bch_terms=k, **kw)
+            w = svfs(u, v, bch_terms=k)
+            if k == case["key"] % 6:
+                spoil_result(w)  # the result belongs to the caller
+                w = svfs(u, v, bch_terms=k)
+            if not (torch.equal(u, u_0) and torch.equal(v, v_0)):
+                raise Violation("bch_input_modified", f"compose_svfs(u, v, bch_terms={k}) modified or returned an argument")
             if w.shape != u.shape:
                 raise Violation("bch_shape", f"compose_svfs result {tuple(w.shape)} for input {tuple(u.shape)}")
             for b in range(N):
@@ -796,13 +865,13 @@ def run_bch_affine(case):
         if commuting:
             nz = float(u.abs().max()) > 1e-2 and float(v.abs().max()) > 1e-2
         # documented default: bch_terms=3
-        w3 = U.compose_svfs(u, v, **kw)
+        w3 = svfs(u, v)
         for b in range(N):
             vals, err = models[b][0][3]
             worst = max(worst, check_close(w3[b], vals, 8 * err + 1e-300, "bch_default_terms",
                                            "compose_svfs default must be the 3-term formula"))
     labels = [f"D={D}", case["dtype"], f"N={N}", f"pair={case['pair']}", f"mode={case['mode']}",
-              f"spacing={case['spacing_kind']}/{case['spacing_form']}"]
+              f"spacing={case['spacing_kind']}/{case['spacing_form']}", f"form={form}"]
     return {"ratio": worst, "nontrivial": nz and len(set(shape)) > 1, "labels": labels}
 
 
@@ -917,6 +986,7 @@ def log_exp_cases(draw):
         "bch_terms": draw(st.one_of(st.none(), st.integers(0, 5))),
         "sigma": draw(st.sampled_from(["default", None, 0.5, 1.0, 1.5])),
         "spacing_form": draw(st.sampled_from(["list", "list", "tensor"])),  # per-axis list or (N, D) tensor
+        "form": draw(forms()), "pollute": draw(pollutions()),
     }
 
 
@@ -955,13 +1025,15 @@ def run_log_exp(case):
     start = P * min(1.0, L) ** iters
     bound = floor + euler + start
     ekw, lkw = expv_kwargs(case), logv_kwargs(case)
+    form = case.get("form", "kw")
     for ac in (True, False):
         v = torch.tensor(to_norm(fv / sc, shape, ac), dtype=dt)
-        e = U.expv(v, align_corners=ac, **ekw)
+        pollute_coords(shape, ac, dt, case.get("pollute"))
+        e = invoke("expv", U.expv, form, [v], dict(ekw, align_corners=ac))
         sp = [float(s) for s in unit_of(shape, ac)]  # anisotropic for non-cubic shapes
         if case.get("spacing_form") == "tensor":
             sp = torch.tensor([sp] * case["N"], dtype=torch.float64)
-        r = U.logv(e, spacing=sp, align_corners=ac, **lkw)
+        r = invoke("logv", U.logv, form, [e], dict(lkw, spacing=sp, align_corners=ac))
         if r.shape != v.shape:
             raise Violation("log_exp_shape", f"logv result shape {tuple(r.shape)} != {tuple(v.shape)}")
         out[ac] = to_vox(r, shape, ac)
@@ -980,7 +1052,128 @@ def run_log_exp(case):
                        f"steps={case.get('steps')}", f"exp_steps={case.get('exp_steps')}",
                        "scale=omitted" if case.get("scale") is None else ("scale<0" if case["scale"] < 0 else "scale>0"),
                        f"inverse={bool(case.get('inverse'))}", f"iters={case.get('iters')}",
-                       f"bch_terms={case.get('bch_terms')}", f"sigma={case.get('sigma', 'default')}"]}
+                       f"bch_terms={case.get('bch_terms')}", f"sigma={case.get('sigma', 'default')}", f"form={form}"]}
+
+
+# ---------------------------------------------------------------------------------------
+# facet 7: degenerate-but-valid option values with closed forms (steps=0, exp_steps=0, bch_terms=0, few iterations)
+
+
+@st.composite
+def degenerate_cases(draw):
+    D = draw(gen.dims())
+    shape = draw(st.lists(st.integers(2, 10 if D == 2 else 7), min_size=D, max_size=D))
+    if draw(st.booleans()):
+        # plain sum (no bracket is evaluated): any iteration count, None: omitted (documented default 5)
+        bt, iters = 0, draw(st.one_of(st.none(), st.integers(0, 4)))
+    else:
+        # nested finite-difference brackets: few iterations keep the derived rounding bound useful
+        bt, iters = draw(st.one_of(st.none(), st.integers(1, 5))), draw(st.integers(0, 2))  # None: omitted (default 1)
+    return {
+        "D": D, "shape": shape, "ac": draw(st.booleans()), "dtype": draw(gen.dtypes()), "N": draw(st.integers(1, 3)),
+        "f": gen_params(draw, D), "iters": iters, "bch_terms": bt,
+        "sigma": draw(st.sampled_from(["default", None, 1.0, 0.7])),  # only free when no bracket is evaluated
+        "scale": draw(st.one_of(st.none(), st.sampled_from([0, 0.0, 1, 1.0, -1, -1.0]), gen.qfloat(-2.0, 2.0, 0.01))),
+        "inverse": draw(st.booleans()),
+        "form": draw(forms()), "pollute": draw(pollutions()), "repeat": draw(st.booleans()),
+    }
+
+
+def run_degenerate(case):
+    """Closed forms of the documented algorithms at the degenerate end of their integer options, on invariant affine
+    displacement fields f(x) = A x + a (homogeneous generator F), where every sampling step is exact:
+
+    * expv(f, scale=s, steps=0, inverse=i) = (-1)^i s f   (zero steps return the scaled input);
+    * logv(f, num_iters=m, bch_terms=k, exp_steps=0, sigma=None, spacing=h): v_0 = f and, for n < m,
+      w_n = expv(v_n, steps=0, inverse=True) = -v_n,  u_n = compose_flows(f, w_n) = f + w_n o (id + f), i.e.
+      U_n = F - V_n (I + F) (x + f(x) stays in the sample hull, so linear interpolation of the affine field w_n is
+      exact whatever V_n is),  v_{n+1} = compose_svfs(u_n, v_n, bch_terms=k) = documented series with matrix
+      commutators (forward/central/backward differences are exact on affine fields).  m = 0 returns f.
+    Rounding: AField error bookkeeping as in bch_exact_affine; the sampled values carry the error of v_n (convex
+    weights) and positions x + f(x) carry <= 4 n eps index units, times the slope of v_n per sample."""
+    from deepali.core import functional as U
+
+    D, shape, ac, N = case["D"], case["shape"], case["ac"], case["N"]
+    dt = tdtype(case["dtype"])
+    eps = eps_of(dt)
+    form = case.get("form", "kw")
+    x = cube_coords(shape, ac)
+    sp = [float(v) for v in unit_of(shape, ac)]
+    smin = min(sp)
+    H0 = invariant_disp(case, case["f"])
+    gens = [hom_gen(H0 / (b + 1)) for b in range(N)]  # the invariance condition is homogeneous
+    flow = torch.tensor(np.stack([affine_field(G[:D], x) for G in gens]), dtype=dt)
+    flow0 = flow.clone()
+    worst = 0.0
+    pollute_coords(shape, ac, dt, case.get("pollute"))
+
+    # (a) zero squaring steps: the scaled input
+    scale = case["scale"]
+    s = 1.0 if scale is None else float(scale)
+    given = {"steps": 0, "align_corners": ac}
+    if scale is not None:
+        given["scale"] = scale
+    if case["inverse"]:
+        given["inverse"] = True
+    e = invoke("expv", U.expv, form, [flow], given)
+    expect = flow0.double() * (-s if case["inverse"] else s)
+    worst = max(worst, check_close(e, expect, 4 * eps * max(1.0, float(expect.abs().max())), "expv_steps0_closed_form",
+                                   f"expv(f, {given}) must be the scaled input"))
+
+    # (b) logarithm with exp_steps=0
+    iters = 5 if case["iters"] is None else case["iters"]
+    bt = 1 if case["bch_terms"] is None else case["bch_terms"]
+    lg = {"spacing": sp, "exp_steps": 0, "align_corners": ac}
+    if case["iters"] is not None:
+        lg["num_iters"] = case["iters"]
+    if case["bch_terms"] is not None:
+        lg["bch_terms"] = case["bch_terms"]
+    if bt >= 1:
+        lg["sigma"] = None  # no pre-smoothing: brackets of affine fields are exact
+    elif case["sigma"] != "default":
+        lg["sigma"] = case["sigma"]
+
+    def log(f):
+        r = invoke("logv", U.logv, form, [f], lg)
+        if r.shape != f.shape or r.dtype != f.dtype:
+            raise Violation("logv_shape_dtype", f"logv result {tuple(r.shape)} {r.dtype} for input {tuple(f.shape)} {f.dtype}")
+        return r
+
+    snap = None
+    if case.get("repeat"):
+        first = log(flow.clone())
+        snap = first.clone()
+        spoil_result(first)
+    r = log(flow)
+    if not torch.equal(flow, flow0):
+        raise Violation("logv_input_modified", "logv (or expv with steps=0) modified its argument")
+    if snap is not None:
+        check_close(r, snap, 2 * eps * max(1.0, float(snap.abs().max())), "logv_depends_on_earlier_result",
+                    "logv: same argument, different result after the first result was modified in place")
+    eye = np.eye(D + 1)
+    tight = True
+    for b, F in enumerate(gens):
+        Ff = AField(F, x, 0.0)
+        Ff.err = eps * Ff.fmax
+        V = AField(F, x, Ff.err)
+        for _ in range(iters):
+            Fu = AField(F - V.G @ (eye + F), x, 0.0)
+            Fu.err = Ff.err + V.err + 32 * eps * (V.minf + V.fmax + Ff.fmax)
+            series, _vu = bch_model(Fu, V, x, eps, smin)
+            vals, err = series[bt]
+            V = AField(bch_doc(Fu.G, V.G, bt), x, err)
+            if float(np.abs(V.vals - vals).max()) > 1e-9 * max(1.0, V.fmax):
+                raise AssertionError("reference models of the BCH series disagree")
+        bound = 8 * V.err + 1e-300
+        tight = tight and bound <= 1e-3 * max(V.fmax, Ff.fmax, 1e-6)
+        worst = max(worst, check_close(r[b], V.vals, bound, "logv_affine_closed_form",
+                                       f"logv(f, {lg}) vs the documented iteration in closed form, item {b}"))
+    offd = any(abs(H0[i, j]) > 0.01 for i in range(D) for j in range(D) if i != j)
+    return {"ratio": worst, "nontrivial": offd and tight and iters >= 1 and len(set(shape)) > 1,
+            "labels": [f"D={D}", f"ac={ac}", case["dtype"], f"N={N}", f"iters={case['iters']}", f"bch_terms={case['bch_terms']}",
+                       f"form={form}", f"pollute={case.get('pollute')}", f"inverse={case['inverse']}",
+                       "scale=omitted" if scale is None else ("scale=0" if s == 0 else ("|scale|=1" if abs(s) == 1 else "scale=other")),
+                       "tight" if tight else "loose"]}
 
 
 # ---------------------------------------------------------------------------------------
@@ -1021,4 +1214,11 @@ FACETS = [
                "0..5, sigma omitted / None / 0.5 / 1 / 1.5, spacing list or (N, D) tensor; non-trivial = a >= 0.5 and "
                "non-cubic shape",
           quick=100, thorough=2000, shards=16, quick_shards=2),
+    Facet("degenerate_closed_forms", run_degenerate, strategy=degenerate_cases,
+          rule="invariant affine displacement fields, N in 1..3, both conventions, f32/f64; expv with steps=0, scale omitted / "
+               "0 / +-1 / [-2, 2], inverse; logv with exp_steps=0, num_iters omitted or 0..4 (<= 2 when brackets are "
+               "evaluated), bch_terms omitted or 0..5, sigma free when bch_terms=0; every call keyword / positional / "
+               "defaults omitted, after in-place modification of Grid.coords() tensors and of an earlier result; "
+               "non-trivial = off-diagonal entries, num_iters >= 1, derived bound <= 1e-3 of the values, non-cubic shape",
+          quick=400, thorough=6000, shards=16, quick_shards=2),
 ]
